@@ -174,6 +174,8 @@ def _hyp_settings(n, shrink):
 
 
 def worker_init(run_tmp, repo):
+    global _WORKDIR
+    _WORKDIR = None          # never share the parent's scratch dir: files are rewritten per case
     os.environ['VERIF_RUN_TMP'] = run_tmp
     warnings.simplefilter('ignore')
 
@@ -347,6 +349,9 @@ def main(argv, here, repo):
         if a.replay:
             return _replay(mod, pid, a.replay, here)
         return _run(mod, pid, a.tier, seed, a.procs, a.scale, here, repo, run_tmp, t_start)
+    except Exception as e:
+        sys.stderr.write('HARNESS-ERROR: %s: %s\n%s\n' % (type(e).__name__, e, traceback.format_exc()[-2000:]))
+        return 2
     finally:
         shutil.rmtree(run_tmp, ignore_errors=True)
 
@@ -430,7 +435,7 @@ def _run(mod, pid, tier, seed, procs, scale, here, repo, run_tmp, t_start):
 
         if job_async is not None:
             ex = dict(evaluations=0, nontrivial=0, jobs=len(jobs), complete=True)
-            for r in job_async.get():
+            for r in job_async.get(timeout=time_s * 3 + 900):
                 if r.get('error'):
                     harness_errors.append('job: ' + r['error'])
                     ex['complete'] = False
@@ -456,7 +461,7 @@ def _run(mod, pid, tier, seed, procs, scale, here, repo, run_tmp, t_start):
                     f['count'] += 1
             exhaustive_info = ex
 
-        shard_results = shard_async.get() if shard_async is not None else []
+        shard_results = shard_async.get(timeout=time_s * 3 + 900) if shard_async is not None else []
         for r in shard_results:
             if r['error']:
                 harness_errors.append('shard %d: %s' % (r['shard'], r['error']))
